@@ -660,7 +660,16 @@ def _build_expression(
             )
 
     if via is not None:
-        fn = Via(fn, *via)
+        convert_in, convert_out = via
+        if strip_exponent:
+            # the function returns (mantissa, exponent): only the mantissa
+            # is an array that ``convert_out`` can be meant for
+            _convert_out = convert_out
+
+            def convert_out(out):
+                return _convert_out(out[0]), out[1]
+
+        fn = Via(fn, convert_in, convert_out)
 
     return fn
 
